@@ -66,6 +66,10 @@ def main():
     shutil.rmtree(outdir, ignore_errors=True)
     sh('git -C /repo worktree add --detach %s HEAD' % wt2)
     r = sh('git -C %s apply %s/patch.diff' % (wt2, out))
+    if r.returncode != 0:
+        sh('git -C /repo worktree remove --force %s' % wt2)
+        print('PATCH DOES NOT APPLY to the current tree: %s\n%s' % (sid, r.stdout))
+        return 3
     try:
         for c in checks:
             t0 = time.time()
